@@ -2,10 +2,16 @@ package h
 
 import "github.com/kelindar/column"
 
-// InstallSeqHook makes the scheduling hook log the release of a block's latch (commit.after);
-// the sequential driver never parks.
+// the sequential hook: logs protocol points, never parks; an extra callback can be layered on top
+var seqHook func(point string, chunk uint32)
+
+func verifHook() func(point string, chunk uint32)     { return seqHook }
+func setVerifHook(f func(point string, chunk uint32)) { seqHook = f }
+
+// InstallSeqHook makes the scheduling hook log the release of a block's latch (commit.after), the
+// key lookups that missed and the snapshot protocol points; the sequential driver never parks.
 func InstallSeqHook(w *World) {
-	column.VerifYield = func(point string, txn *column.Txn, chunk uint32) {
+	seqHook = func(point string, chunk uint32) {
 		if point == "commit.after" && !w.Bulk {
 			w.T.Log(Ev{"e": "after", "t": w.T.Actor()})
 		}
@@ -16,6 +22,7 @@ func InstallSeqHook(w *World) {
 			w.SnapHook(point, chunk)
 		}
 	}
+	column.VerifYield = func(point string, txn *column.Txn, chunk uint32) { seqHook(point, chunk) }
 }
 
 func UninstallHook() { column.VerifYield = nil }
